@@ -354,6 +354,8 @@ theorem write_valid (K : Inflate) (enc : Bytes → Bytes) (s : Source) (tiles : 
   simp only [hblocks] at hw
   split at hw
   · cases hw
+  split at hw
+  · cases hw
   · rw [hput] at hw
     simp only at hw
     cases hdirres : asDirectory enc (16384 - 127) es with
